@@ -53,14 +53,30 @@ fn set_clock(_r: Vec<u64>) {
     panic!("built without --cfg sneldb_verif");
 }
 
+fn proc_dir() -> std::path::PathBuf {
+    std::env::temp_dir().join(format!("vharn-eid-{}", std::process::id()))
+}
+
 /// Process-wide engine configuration for the `ShardContext` probes (CONFIG is a global Lazy
-/// read from $SNELDB_CONFIG). Directories named in it are never used by these probes.
+/// read from $SNELDB_CONFIG). Only `eid_engine` uses the directories named in it (so that the WAL
+/// cleaner, which takes its directories from CONFIG, acts on the WAL the shard really writes).
 pub fn ensure_config() {
     use std::sync::Once;
     static ONCE: Once = Once::new();
     ONCE.call_once(|| {
         if std::env::var("SNELDB_CONFIG").is_ok() { return; }
-        let dir = std::env::temp_dir().join("vharn-eid-config");
+        // one directory per harness process; directories of dead processes are removed
+        if let Ok(rd) = std::fs::read_dir(std::env::temp_dir()) {
+            for e in rd.flatten() {
+                let name = e.file_name().to_string_lossy().to_string();
+                if let Some(pid) = name.strip_prefix("vharn-eid-") {
+                    if pid.parse::<u32>().is_ok() && !Path::new(&format!("/proc/{pid}")).exists() {
+                        let _ = std::fs::remove_dir_all(e.path());
+                    }
+                }
+            }
+        }
+        let dir = proc_dir();
         let _ = std::fs::create_dir_all(&dir);
         let path = dir.join("config.toml");
         let d = dir.display();
@@ -305,15 +321,20 @@ pub fn run(t: &[String]) -> String {
             let l2 = parts.next().unwrap();
             let ks = [l1[0].parse::<usize>().unwrap(), l2[0].parse::<usize>().unwrap()];
             let scripts = [readings(&l1[1..]), readings(&l2[1..])];
-            let tmp = tempfile::tempdir().unwrap();
-            let base = tmp.path().join("cols");
-            let wal = tmp.path().join("wal");
+            if std::env::var("SNELDB_CONFIG").map(|p| !p.starts_with(proc_dir().to_string_lossy().as_ref())).unwrap_or(true) {
+                return "ENGINE_ERROR foreign_config".into();
+            }
+            let tmp = proc_dir();
+            let base = tmp.join("cols");
+            let wal = tmp.join("wal");
+            for d in [&base, &wal, &tmp.join("schema"), &tmp.join("index")] { let _ = std::fs::remove_dir_all(d); }
+            let _ = std::fs::remove_file(tmp.join("schemas.bin"));
             let mut x = 0usize;
             let mut last = String::new();
             for life in 0..2 {
                 let rt = tokio::runtime::Builder::new_multi_thread().worker_threads(2).enable_all().build().unwrap();
                 let res: Result<String, String> = rt.block_on(async {
-                    let reg = SchemaRegistry::new_with_path(tmp.path().join("schemas.bin")).map_err(|e| format!("{e:?}"))?;
+                    let reg = SchemaRegistry::new_with_path(tmp.join("schemas.bin")).map_err(|e| format!("{e:?}"))?;
                     let registry = Arc::new(tokio::sync::RwLock::new(reg));
                     let mgr = ShardManager::new(1, base.clone(), wal.clone()).await;
                     let run_cmd = |line: String| {
